@@ -1,7 +1,7 @@
 """SymPath - a symbolic stand-in for pathlib.PurePosixPath at the level of *parsed parts*.
 
 A path is (absolute flag, sequence of <= K parts), each part from an enumerated alphabet
-{"..", "a", "b", "shards_list.json"}.  ("." and empty components never survive pathlib's parsing, a
+{"..", "a", "train" (a split name: some code treats the first component specially), "shards_list.json"}.  ("." and empty components never survive pathlib's parsing, a
 concrete self-test checks that against the real pathlib.)  Supports what the real validators and join
 sites use: .parts (in / index / len / iteration / slicing), .name, .is_absolute(), `/` on both sides.
 `escapes(depth0)` is the containment oracle: lexical resolution of base/p leaves base (base being depth0
@@ -15,7 +15,7 @@ from .symx import Inconclusive, SymBool, SymInt
 
 DD, N1, N2, SLJ, WIN = 0, 1, 2, 3, 4
 # WIN: one harmless POSIX file name that would be a traversal if somebody re-parsed it with Windows separators
-TOK = {DD: "..", N1: "a", N2: "b", SLJ: "shards_list.json", WIN: "w\\..\\..\\..\\x"}
+TOK = {DD: "..", N1: "a", N2: "train", SLJ: "shards_list.json", WIN: "w\\..\\..\\..\\x"}
 ROOTS = {0: "", 1: "/", 2: "//"}  # POSIX: exactly two leading slashes are a root of their own
 ALPHA = len(TOK)
 
